@@ -155,7 +155,7 @@ static void run_one(const unsigned char *in, size_t len, int ci, const size_t *c
  * the connection's configuration but are installed for the transaction with htp_tx_set_config() from a REQUEST_LINE callback
  * (the connection configuration then carries different settings): parameters are decoded per the transaction's configuration. */
 static htp_cfg_t *conn_cfg_other;
-static uint64_t n_e2e, n_e2e_txcfg;
+static uint64_t n_e2e, n_e2e_txcfg, n_e2e_chunked;
 static int cb_install_txcfg(htp_tx_t *tx) {
     intptr_t ci = (intptr_t) htp_connp_get_user_data(tx->connp);
     if (ci >= 100) htp_tx_set_config(tx, cfgs[ci - 100], HTP_CONFIG_SHARED);
@@ -170,7 +170,11 @@ static void run_e2e(const unsigned char *in, size_t len, int ci, const size_t *c
     htp_connp_set_user_data(cp, (void *) (intptr_t) (txcfg ? 100 + ci : ci));
     struct timeval tv = { 1, 0 };
     char head[200];
-    int hl = snprintf(head, sizeof head, "POST /e2e HTTP/1.1\r\nHost: h\r\nContent-Type: application/x-www-form-urlencoded\r\nContent-Length: %zu\r\n\r\n", len);
+    /* every third run frames the body with the chunked transfer coding (one HTTP chunk, cut like the plain body) */
+    int chunked = (n_e2e % 3) == 0;
+    int hl = chunked ? snprintf(head, sizeof head, "POST /e2e HTTP/1.1\r\nHost: h\r\nContent-Type: application/x-www-form-urlencoded\r\nTransfer-Encoding: chunked\r\n\r\n%zx\r\n", len)
+                     : snprintf(head, sizeof head, "POST /e2e HTTP/1.1\r\nHost: h\r\nContent-Type: application/x-www-form-urlencoded\r\nContent-Length: %zu\r\n\r\n", len);
+    if (chunked) n_e2e_chunked++;
     htp_connp_req_data(cp, &tv, head, (size_t) hl);
     size_t prev = 0;
     for (int i = 0; i <= ncuts; i++) {
@@ -178,9 +182,10 @@ static void run_e2e(const unsigned char *in, size_t len, int ci, const size_t *c
         if (e > prev) { void *t = piece_get(in + prev, e - prev); htp_connp_req_data(cp, &tv, t, e - prev); piece_drop(t, e - prev); }
         prev = e;
     }
+    if (chunked) htp_connp_req_data(cp, &tv, "\r\n0\r\n\r\n", 7);
     htp_tx_t *tx = htp_list_get(cp->conn->transactions, 0);
     char d[400];
-    const char *how = txcfg ? "e2e_txcfg_" : "e2e_";
+    const char *how = txcfg ? (chunked ? "e2e_txcfg_chunked_" : "e2e_txcfg_") : (chunked ? "e2e_chunked_" : "e2e_");
     char key[40];
     if (tx == NULL || tx->request_params == NULL) { snprintf(key, sizeof key, "%sno_params", how); report(key, in, len, ci, cuts, ncuts, "no transaction / parameter table"); htp_connp_destroy_all(cp); return; }
     int got = 0, bad = 0;
